@@ -107,3 +107,40 @@ func blsErrClass(err error) string {
 	}
 	return ""
 }
+
+// pkOfProvenance returns the public key of the scalar k held in an object built one of several ways: 0 fresh (affine),
+// 1 decoded from bytes, 2 what is left of an aggregate after a removal (projective coordinates), 3 aggregate of the
+// keys of two scalars adding up to k, 4 removal of two keys from an aggregate of three. Every API that takes keys is to
+// treat them alike.
+func pkOfProvenance(c *Ctx, k *big.Int, kind int) crypto.PublicKey {
+	fresh := skFromInt(k).PublicKey()
+	switch kind {
+	case 1:
+		if pk, err := crypto.DecodePublicKey(crypto.BLSBLS12381, fresh.Encode()); err == nil {
+			return pk
+		}
+	case 2:
+		extra := skFromInt(c.randScalar()).PublicKey()
+		if agg, err := crypto.AggregateBLSPublicKeys([]crypto.PublicKey{fresh, extra}); err == nil {
+			if pk, err := crypto.RemoveBLSPublicKeys(agg, []crypto.PublicKey{extra}); err == nil {
+				return pk
+			}
+		}
+	case 3:
+		a := c.randScalar()
+		b := new(big.Int).Mod(new(big.Int).Sub(new(big.Int).Add(k, blsR), a), blsR)
+		if b.Sign() != 0 {
+			if pk, err := crypto.AggregateBLSPublicKeys([]crypto.PublicKey{skFromInt(a).PublicKey(), skFromInt(b).PublicKey()}); err == nil {
+				return pk
+			}
+		}
+	case 4:
+		e1, e2 := skFromInt(c.randScalar()).PublicKey(), skFromInt(c.randScalar()).PublicKey()
+		if agg, err := crypto.AggregateBLSPublicKeys([]crypto.PublicKey{e1, fresh, e2}); err == nil {
+			if pk, err := crypto.RemoveBLSPublicKeys(agg, []crypto.PublicKey{e2, e1}); err == nil {
+				return pk
+			}
+		}
+	}
+	return fresh
+}
